@@ -82,18 +82,26 @@ class CFG:
     def pdom(self):
         if self._pdom is None:
             EXIT = -1
-            exits = [n for n in self.order if not [s for s in self.succ[n] if s in self.nodes]]
-            nodes = list(self.order) + [EXIT]
+            # the `otherwise -> unreachable` arm the compiler adds to an exhaustive match is not a way out of the
+            # function: counting it as an exit would make everything after the match control dependent on the match
+            dead = {n for n in self.order if self.body.blocks[n]['term'].get('k') == 'unreachable' and not self.body.blocks[n]['stmts']}
+            self.dead = dead
+            live = [n for n in self.order if n not in dead]
+            exits = [n for n in live if not [s for s in self.succ[n] if s in self.nodes and s not in dead]]
+            nodes = live + [EXIT]
 
             def preds_rev(n):
                 if n == EXIT:
                     return []
-                ss = [s for s in self.succ[n] if s in self.nodes]
+                ss = [s for s in self.succ[n] if s in self.nodes and s not in dead]
                 if n in exits:
                     ss = ss + [EXIT]
                 return ss
 
-            self._pdom = _dom(nodes, EXIT, preds_rev)
+            pd = _dom(nodes, EXIT, preds_rev)
+            for n in dead:
+                pd[n] = {n, EXIT}
+            self._pdom = pd
         return self._pdom
 
     def postdominates(self, a, b):
@@ -106,7 +114,7 @@ class CFG:
             cd = {n: set() for n in self.order}
             pd = self.pdom()
             for a in self.order:
-                ss = [s for s in self.succ[a] if s in self.nodes]
+                ss = [s for s in self.succ[a] if s in self.nodes and s not in self.dead]
                 if len(set(ss)) < 2:
                     continue
                 for s in set(ss):
